@@ -131,7 +131,10 @@ def binding : Trace.Binding proto :=
       | _ => none
     retOf := fun l => match l with
       | .done => some []
-      | _ => none }
+      | _ => none
+    reqOrder := fun l => match l with
+      | .aLock | .dLock => 2 | .aUnlock | .dUnlock => 3
+      | _ => 0 }
 
 def init : State proto := initState proto L.idle (fun _ => 0)
 
